@@ -353,6 +353,20 @@ class Gen:
         if c == "tuple":
             a, _ = self.expr(INT, scope, d - 1); f, _ = self.expr(FLOAT, scope, d - 1)
             self.use("tuple")
+            if self.ch(0.35) and d > 1:
+                # a conditional / match whose branches are tuples of the same type
+                a2, _ = self.expr(INT, scope, d - 1); f2, _ = self.expr(FLOAT, scope, d - 1)
+                t1, t2 = ["tuple", [a, f], [INT, FLOAT]], ["tuple", [a2, f2], [INT, FLOAT]]
+                if self.ch(0.3):
+                    e, _ = self.expr(ENUM, scope, min(d - 1, 1))
+                    self.use("match:of-tuple")
+                    return ["index", ["match", e, [["gitem", "E", "eb", t1], ["gelse", t2]]], [["int", 0]]], "C"
+                self.use("cond:of-tuple")
+                style = r.choice(["?:", "if"])
+                cnd = self.e_cond(scope, min(d - 1, 2))
+                if style == "if":
+                    t1, t2 = self.as_block(t1), self.as_block(t2)
+                return ["index", ["cond", cnd, t1, t2, style], [["int", 0]]], "C"
             return ["index", ["tuple", [a, f], [INT, FLOAT]], [["int", 0]]], "C"
         return self.lit(INT), "T"
 
@@ -398,8 +412,12 @@ class Gen:
     def e_rng(self, ty, scope, d):
         r = self.r
         n = ty[1]
-        # (no `c ? r1 : r2`: the typechecker has no rule for a conditional of range type)
-        c = r.weighted([("lit", 40), ("var", 30), ("sub", 14), ("call", 6 if n == 1 else 0)])
+        c = r.weighted([("lit", 40), ("var", 30), ("sub", 14), ("call", 6 if n == 1 else 0), ("cond", 6), ("match", 3)])
+        if c in ("cond", "match"):
+            e = self.cond_or_match(ty, scope, d)
+            if e is not None:
+                return e, "C"
+            c = "lit"
         if c == "var":
             return self.leaf(ty, scope)
         if c == "sub":
@@ -418,6 +436,32 @@ class Gen:
             bs[1] = bs[0] if bs[0][0] == "int" else bs[1]      # [a .. a]: one element
         return ["range", bs], "T"
 
+    def cond_or_match(self, ty, scope, d):
+        """`c ? x : y`, `if (c) { x } else { y }` or `match e { E::ea -> x; … }` whose branches have the range / slice / tuple
+        type ty (typed by the real compiler since repo fixes b996419, b235435)"""
+        r = self.r
+        if d <= 0:
+            return None
+        a, _ = self.expr(ty, scope, d - 1); b, _ = self.expr(ty, scope, d - 1)
+        if self.ch(0.3):
+            e, _ = self.expr(ENUM, scope, min(d - 1, 1))
+            self.use("match:of-" + ty[0])
+            return ["match", e, [["gitem", "E", "ea", a], ["gelse", b]]]
+        style = r.choice(["?:", "if"])
+        cnd = self.e_cond(scope, min(d - 1, 2))
+        if self.is_const_expr(cnd):
+            # a LITERAL condition over range branches hits a defect of the constant reducer (the type of the removed
+            # conditional is freed while an enclosing array operation still points at it; probe
+            # constred-cond-of-ranges-frees-type-still-used): generated conditions here are not constants
+            vs = self.vars_of(scope, INT)
+            if not vs:
+                return None
+            cnd = ["bin", "le", ["var", r.choice(vs)["name"]], self.lit(INT)]
+        self.use("cond:of-" + ty[0])
+        if style == "if":
+            a, b = self.as_block(a), self.as_block(b)
+        return ["cond", cnd, a, b, style]
+
     def sub_pos(self, scope, d):
         """a bound of an inner range `x[c .. d]`: a position of the outer one"""
         if self.ch(self.k["faults"] * 0.4):
@@ -428,7 +472,12 @@ class Gen:
     def e_slc(self, ty, scope, d):
         r = self.r
         n = ty[1]
-        c = r.weighted([("arr", 40), ("var", 30), ("sub", 14), ("call", 6 if n == 1 else 0)])
+        c = r.weighted([("arr", 40), ("var", 30), ("sub", 14), ("call", 6 if n == 1 else 0), ("cond", 5), ("match", 2)])
+        if c in ("cond", "match"):
+            e = self.cond_or_match(ty, scope, d)
+            if e is not None:
+                return e, "C"
+            c = "arr"
         if c == "var":
             return self.leaf(ty, scope)
         # const kind: the elements seen through a slice are assignable iff those of what was sliced are (the real
@@ -698,9 +747,21 @@ class Gen:
     def e_arr(self, ty, scope, d):
         r = self.r
         if ty == ARR2:
-            c = r.weighted([("lit", 10), ("var", 10), ("new", 6)])
+            c = r.weighted([("lit", 10), ("var", 10), ("new", 6), ("arith", 6)])
             if c == "var":
                 return self.leaf(ty, scope)
+            if c == "arith" and d > 0:
+                # matrix product (2-dimensional, columns = rows, else wrong_array_size), sum, scalar multiple, negation
+                k = r.choice(["matmul", "matmul", "add", "scale", "neg"])
+                self.use("arrarith2:" + k)
+                # (the elements of the result are assignable only if those of the operands are)
+                a, ca = self.expr(ARR2, scope, d - 1)
+                if k == "neg":
+                    return ["un", "neg", a], ("C" if ca == "C" else "T")
+                if k == "scale":
+                    return ["bin", "mul", self.expr(INT, scope, min(d - 1, 1))[0], a], ("C" if ca == "C" else "T")
+                b, cb = self.expr(ARR2, scope, d - 1)
+                return ["bin", "mul" if k == "matmul" else r.choice(["add", "sub"]), a, b], ("C" if "C" in (ca, cb) else "T")
             if c == "new":
                 self.use("arrnew2")
                 return ["arrnew", INT, [["int", r.range(1, 3)], ["int", r.range(2, 3)]]], "T"
@@ -709,9 +770,20 @@ class Gen:
             return ["arrlit", [n, m], INT, [self.expr(INT, scope, d - 1)[0] for _ in range(n * m)]], "T"
         el = ty[2]
         c = r.weighted([("lit", 14), ("var", 12), ("new", 5), ("comp", 6 if el == INT else 0), ("call", 4 if el == INT else 0),
-                        ("rderef", int(5 * self.k["ranges"]) if el == INT else 0)])
+                        ("rderef", int(5 * self.k["ranges"]) if el == INT else 0), ("arith", 7)])
         if c == "var":
             return self.leaf(ty, scope)
+        if c == "arith" and d > 0:
+            # element-wise: a + b, a - b (extents must agree, else wrong_array_size), k * a (scalar on the left), -a
+            k = r.choice(["add", "sub", "scale", "neg"])
+            self.use("arrarith:" + k)
+            a, ca = self.expr(ty, scope, d - 1)
+            if k == "neg":
+                return ["un", "neg", a], ("C" if ca == "C" else "T")
+            if k == "scale":
+                return ["bin", "mul", self.expr(el, scope, min(d - 1, 1))[0], a], ("C" if ca == "C" else "T")
+            b, cb = self.expr(ty, scope, d - 1)
+            return ["bin", k, a, b], ("C" if "C" in (ca, cb) else "T")
         if c == "rderef":
             if self.ch(0.3):
                 a, _ = self.expr(RNG2, scope, d - 1)
@@ -1128,6 +1200,11 @@ class Gen:
                     t = e
                 self.use("call:var-param")
                 args.append(t)
+            elif p["ty"] in (ARR, RNG, SLC) and self.ch(self.k["faults"] * 0.3):
+                # an unassigned (nil) element of an array of arrays / ranges / slices: the call itself is fine, `nil_pointer`
+                # is raised where the callee uses the value or one of its extent / bound names
+                self.use("fault:nil-collection-arg")
+                args.append(["index", ["arrnew", p["ty"], [["int", 2]]], [["int", self.r.range(0, 1)]]])
             elif p["ty"] == FLOAT and self.ch(0.15):
                 self.use("conv:arg")
                 args.append(self.expr(INT, scope, d)[0])
